@@ -20,6 +20,10 @@ def policies(rng=None):
     return out
 
 
+def gc_step(repo):
+    return dict(kind="gc", repo=repo, impl=dict(op="gc", repo=repo), model=sl("gc", sx(repo)))
+
+
 class Graph:
     """what the harness pushed into one repository"""
 
@@ -51,11 +55,10 @@ class GCWorld(gen.World):
     def blob(self, repo, data):
         d = dg("sha256", data)
         g = self.g[repo]
-        if d not in g.bytes or self.rng.random() < 0.2:
-            self.add(upload_post(repo, digest=d, body=data))
-            if d not in g.bytes:
-                g.young.add(d)        # a re-push of stored content does not refresh its modification time
-            g.bytes[d] = data
+        # HEAD first: whether the push creates the blob (fresh modification time) is read off the responses
+        self.add(blob_get(repo, d, head=True))
+        self.add(upload_post(repo, digest=d, body=data))
+        g.bytes[d] = data
         self.contents.add(data)
         return d
 
@@ -63,10 +66,9 @@ class GCWorld(gen.World):
         g = self.g[repo]
         d = dg("sha256", body)
         ref = tag or d
+        self.add(blob_get(repo, d, head=True))
         self.add(manifest_put(repo, ref, body, ctype=mt))
         self.contents.add(body)
-        if d not in g.bytes:
-            g.young.add(d)
         g.bytes[d] = body
         g.man[d] = dict(kind=kind, refs=refs, subject=subject, mt=mt)
         if tag:
@@ -148,11 +150,9 @@ class GCWorld(gen.World):
         g = self.g[repo]
         if which == "all":
             self.add(age_step(repo, "", 7200))
-            g.young.clear()
         else:
             for d in self.rng.sample(sorted(g.bytes), min(len(g.bytes), self.rng.randrange(1, 4))):
                 self.add(age_step(repo, d, 7200))
-                g.young.discard(d)
 
     def probe_gc(self, repo, mark):
         g = self.g[repo]
@@ -175,8 +175,6 @@ class GCWorld(gen.World):
         self.probe_gc(repo, ("pre", n))
         k = self.add(gc_step(repo))
         self.steps[k]["gcid"] = n
-        self.steps[k]["young"] = sorted(self.g[repo].young)
-        self.steps[k]["tags"] = dict(self.g[repo].tags)
         self.probe_gc(repo, ("post", n))
 
 
@@ -189,7 +187,7 @@ def observe(case, io):
             continue
         phase, n = mk
         o = obs.setdefault(n, dict(pre=dict(blob={}, man={}, tag={}, refs={}, tags=None), post=dict(blob={}, man={}, tag={}, refs={}, tags=None), k=k))[phase]
-        c = canon_impl(st, res, SidMap())
+        c = canon_impl(dict(st, model=None), res, SidMap())      # (also for steps the model does not cover)
         if st["kind"] == "blobget":
             o["blob"][st["arg"]] = res.get("status")
         elif st["kind"] == "mget":
@@ -202,3 +200,42 @@ def observe(case, io):
         elif st["kind"] == "tags":
             o["tags"] = c.get("tags")
     return obs
+
+
+def replay_state(case, io):
+    """tags and young digests of each repository as they follow from the responses, per collection step:
+    {step index: (tags {tag: digest}, young set, all_old bool)}"""
+    tags, young, last_head, out = {}, {}, {}, {}
+    for k, (st, res) in enumerate(zip(case["steps"], io["steps"])):
+        repo = st.get("repo")
+        tg, yg = tags.setdefault(repo, {}), young.setdefault(repo, set())
+        kind, status = st["kind"], res.get("status")
+        if kind == "blobget" and st.get("head"):
+            last_head[(repo, st["arg"])] = (k, status)
+        elif kind == "upost" and status == 201 and st["digest"]:
+            h = last_head.get((repo, st["digest"]))
+            if h and h[0] == k - 1 and h[1] == 404:
+                yg.add(st["digest"])
+        elif kind == "mput" and status == 201:
+            d = (res.get("headers") or {}).get("Docker-Content-Digest", [""])[0]
+            h = last_head.get((repo, d))
+            if h and h[0] == k - 1 and h[1] == 404:
+                yg.add(d)
+            if gen.is_tag_py(st["arg"]):
+                tg[st["arg"]] = d
+        elif kind == "mdel" and status == 202:
+            if gen.is_tag_py(st["arg"]):
+                tg.pop(st["arg"], None)
+            else:
+                for t in [t for t, x in tg.items() if x == st["arg"]]:
+                    del tg[t]
+        elif kind == "blobdel" and status == 202:
+            yg.discard(st["arg"])
+        elif kind == "age":
+            if st["impl"].get("digest"):
+                yg.discard(st["impl"]["digest"])
+            else:
+                yg.clear()
+        elif kind == "gc":
+            out[k] = (dict(tg), set(yg))
+    return out
